@@ -137,12 +137,13 @@ func setBitfield(bytes []byte, start, width int, value int64) {
 
 func isSignedSumOverflow(a, b int64, bits int) bool {
 	signBit := int64(1) << (bits - 1)
+	// compare against the room left on b's side, which cannot overflow even for 64 bits
 	if b > 0 {
 		ceiling := signBit - 1
-		return b > (ceiling - a)
+		return a > (ceiling - b)
 	} else {
 		bottom := ^(signBit - 1)
-		return b < (bottom - a)
+		return a < (bottom - b)
 	}
 }
 
